@@ -4,6 +4,7 @@ import (
 	"fmt"
 	"go/token"
 	"go/types"
+	"math/big"
 	"sort"
 	"strings"
 
@@ -20,7 +21,7 @@ func init() {
 			"(6) shape coupling: split, maybeSplitChild and the merge step change a node's item count and child count together (truncate i / i+1, insertAt i / i+1, removeAt i / i+1, items and children appended together); (7) length++ exactly when the insert added an item, length-- exactly when the remove found one, Clear zeroes root and length together. " +
 			"NOT decided: equivalence with a sorted set, node occupancy bounds and equal leaf depth, correctness of the iterate state machine for every tree shape and pivot — all data dependent; no sound static argument within reach (stated in DESIGN.md).",
 		Assumptions: []string{"Item.Less is a strict weak order (caller's obligation)"},
-		Floors:      map[string]int{"C03.wrapper-lock": 9, "C03.cow-ownership": 7, "C03.cow-primitives": 4, "C03.scan-entry": 10, "C03.wrapper-scan": 4, "C03.limit": 2, "C03.update": 2, "C03.shape-coupling": 3, "C03.insert-replace": 1, "C03.length": 3},
+		Floors:      map[string]int{"C03.wrapper-lock": 9, "C03.cow-ownership": 7, "C03.cow-primitives": 4, "C03.scan-entry": 10, "C03.wrapper-scan": 4, "C03.limit": 2, "C03.update": 2, "C03.shape-coupling": 3, "C03.insert-replace": 1, "C03.rebalance-guard": 1, "C03.length": 3},
 		Run:         runC03,
 	})
 }
@@ -166,6 +167,31 @@ func (x *btCtx) checkWrapper(relT, relB string) {
 				if !w && mode == lockNone && ok {
 					ok = false
 					c.violated("C03.wrapper-lock", name, e.Pos, c.fname(target)+" reads the tree without the read lock: it can run concurrently with a writer", c.witness(t, i)...)
+				}
+			}
+			// atomicity: all tree operations of one wrapper call sit in one critical section
+			{
+				first, released := -1, -1
+				for i, e := range t.Events {
+					isOp := false
+					if e.Kind == EvCall && e.Callee != nil && e.Callee.Pkg != nil && strings.HasSuffix(e.Callee.Pkg.Pkg.Path(), "/"+relB) {
+						isOp = true
+					}
+					if e.Kind == EvCall && (e.Val != nil && boundTarget(e.Val) != nil) {
+						isOp = true
+					}
+					if isOp {
+						if first >= 0 && released >= 0 && ok {
+							ok = false
+							c.violated("C03.wrapper-lock", name, e.Pos, "the tree operations of one wrapper call are spread over several critical sections (the lock is released at "+c.posStr(t.Events[released].Pos)+" in between): another goroutine can observe or modify the tree between the halves, e.g. a key that is only being updated is briefly absent", c.witness(t, i)...)
+						}
+						if first < 0 {
+							first = i
+						}
+					}
+					if acq, _, isL := lockOp(e); isL && !acq && first >= 0 && lockOpOnField(e, rw) {
+						released = i
+					}
 				}
 			}
 			// lock balance
@@ -882,6 +908,120 @@ func (x *btCtx) checkShapeAndLength(rel string) {
 		}
 		if ok && n > 0 {
 			c.holds("C03.insert-replace", "(*node).insert", fn.Pos(), fmt.Sprintf("%d paths", n))
+		}
+	}
+
+	// (6c) rebalancing before a delete descends: the merge branch of growChildAndRemove is reached only when
+	// neither existing sibling has an item to spare — otherwise a merge with a rich sibling produces a node above
+	// the degree bound. For the left and for the right side the path must have established "no such sibling"
+	// (i <= 0 / i >= len(n.items)) or "that sibling is at its minimum" (len(sibling.items) <= minItems);
+	// implication is decided on the linear form of each branch fact.
+	if fn := c.mustFn(rel, "(*node).growChildAndRemove"); fn != nil {
+		traces, complete := c.Trace(fn, TraceConfig{Inline: noInl})
+		cons := "(*node).growChildAndRemove"
+		if !complete {
+			c.undecided("C03.rebalance-guard", cons, fn.Pos(), "path budget exceeded")
+		} else {
+			iKey, minKey := "$"+fn.Params[1].Name(), "$"+fn.Params[3].Name()
+			ok, merges := true, 0
+			for _, t := range traces {
+				mergeAt := -1
+				for i, e := range t.Events {
+					if _, is := helperOn(e, "removeAt", "children"); is && e.Args[0].root().Key() == "$"+fn.Params[0].Name() {
+						mergeAt = i
+					}
+				}
+				if mergeAt < 0 {
+					continue
+				}
+				merges++
+				facts := t.factsBefore(mergeAt)
+				// classify the len(...) terms that occur in the facts
+				lenOwn, lenLeft, lenRight := "", "", ""
+				classify := func(x *Sym) {
+					x.walk(func(y *Sym) {
+						if y.Kind != KOp || y.Name != "len" || len(y.Args) != 1 {
+							return
+						}
+						key := boundKey(y)
+						if !strings.Contains(key, ".items") {
+							return
+						}
+						delta, viaChild := int64(0), false
+						y.Args[0].walk(func(z *Sym) {
+							if z.Kind == KIndexAddr && strings.Contains(z.Args[0].Key(), ".children") {
+								d := lf(z.Args[1]).add(lf(&Sym{Kind: KParam, Ref: fn.Params[1], Typ: fn.Params[1].Type()}), -1)
+								if cst, isC := d.isConst(); isC && cst.IsInt64() {
+									delta, viaChild = cst.Int64(), true
+								}
+							}
+						})
+						switch {
+						case !viaChild && !strings.Contains(key, ".children"):
+							lenOwn = key
+						case viaChild && delta == -1:
+							lenLeft = key
+						case viaChild && delta == 1:
+							lenRight = key
+						}
+					})
+				}
+				for _, f := range facts {
+					classify(f.X)
+					classify(f.Y)
+				}
+				one := func(k string, v int64) linForm {
+					return linForm{coef: map[string]*big.Int{k: big.NewInt(v)}, c: new(big.Int)}
+				}
+				implied := func(target linForm) bool {
+					for _, f := range facts {
+						d := lf(f.X).add(lf(f.Y), -1)
+						var es []linForm // each e means e >= 0
+						switch f.Op {
+						case token.GEQ:
+							es = []linForm{d}
+						case token.GTR:
+							es = []linForm{d.add(lfConst(1), -1)}
+						case token.LEQ:
+							es = []linForm{d.scale(big.NewInt(-1))}
+						case token.LSS:
+							es = []linForm{d.scale(big.NewInt(-1)).add(lfConst(1), -1)}
+						case token.EQL:
+							es = []linForm{d, d.scale(big.NewInt(-1))}
+						}
+						for _, e := range es {
+							if k, isC := target.add(e, -1).isConst(); isC && k.Sign() >= 0 {
+								return true
+							}
+						}
+					}
+					return false
+				}
+				leftOK := implied(one(iKey, -1)) // i <= 0
+				if !leftOK && lenLeft != "" {
+					leftOK = implied(one(minKey, 1).add(one(lenLeft, 1), -1))
+				}
+				rightOK := false
+				if lenOwn != "" {
+					rightOK = implied(one(iKey, 1).add(one(lenOwn, 1), -1)) // i >= len(n.items)
+				}
+				if !rightOK && lenRight != "" {
+					rightOK = implied(one(minKey, 1).add(one(lenRight, 1), -1))
+				}
+				if (!leftOK || !rightOK) && ok {
+					ok = false
+					side := "left"
+					if leftOK {
+						side = "right"
+					}
+					c.violated("C03.rebalance-guard", cons, t.Events[mergeAt].Pos, "two children are merged on a path that has established neither that the "+side+" sibling does not exist nor that it is at its minimum: a child whose "+side+" sibling could spare an item is merged instead, producing a node above the degree bound (2*degree-1 items)", c.witness(t, mergeAt)...)
+				}
+			}
+			if ok && merges > 0 {
+				c.holds("C03.rebalance-guard", cons, fn.Pos(), fmt.Sprintf("%d merge paths, each after both siblings were found absent or at minimum", merges))
+			} else if ok {
+				c.undecided("C03.rebalance-guard", cons, fn.Pos(), "no merge path recognised")
+			}
 		}
 	}
 
